@@ -155,8 +155,8 @@ Proof.
   induction new as [|[nm t] new IH]; intros H; [reflexivity|]. inversion H as [|? ? [f Hf] H']; subst. cbn [map filter fst snd] in *.
   unfold dmem. rewrite Hf. cbn [negb]. apply IH. exact H'.
 Qed.
-Theorem ctx_exit_value (cx : bctx (p:=p)) o cb (new : list (nat * slc)) s sg (Q : bdict * bdict -> gst -> store -> Prop) :
-  Inv s sg -> tvalid ins ig (borig cx) s sg -> bnodef cx = None -> bk cx = KIf -> bcond cx = PBool o cb -> sc s cb ->
+Theorem ctx_exit_value_gen (cx : bctx (p:=p)) o cb (new : list (nat * slc)) s sg (Q : bdict * bdict -> gst -> store -> Prop) :
+  Inv s sg -> tvalid ins ig (borig cx) s sg -> (bnodef cx = None \/ bnodef cx = Some []) -> bk cx = KIf -> bcond cx = PBool o cb -> sc s cb ->
   NoDup (map fst new) -> Forall (pre (bbak cx) s sg) new ->
   (forall r s' sg', Inv s' sg' -> ext sg sg' ->
      (forall nm t, In (nm, t) new -> exists x f, dget r nm = Some (PLC x) /\ dget (bbak cx) nm = Some (PLC f) /\ sc s' x /\
@@ -166,10 +166,12 @@ Theorem ctx_exit_value (cx : bctx (p:=p)) o cb (new : list (nat * slc)) s sg (Q 
 Proof.
   intros I V Hn Hk Hc Scb Hd Hp HQ. unfold ctx_exit. apply wp_bind.
   apply (restore_guard_TOK ins ig (borig cx) s sg I V). intros _ s1 sg1 I1 E1 _.
-  rewrite Hn, Hc, Hk.
+  rewrite Hc, Hk.
   assert (Hall : Forall (fun nt : nat * slc => exists f, dget (bbak cx) (fst nt) = Some f) new).
   { eapply Forall_impl; [|exact Hp]. intros nt (_ & f & Hf & _). exists (PLC f). exact Hf. }
-  rewrite (filter_all_in_bak (bbak cx) new Hall). cbn [ret bind fold_left wp].
+  assert (Hnd : wp (match bnodef cx with None => ret (filter (fun jv : nat * pyval => negb (dmem (bbak cx) (fst jv))) (map (fun nt => (fst nt, PLC (snd nt))) new)) | Some nd => merge_nodef c (PBool o cb) (map (fun nt => (fst nt, PLC (snd nt))) new) nd end) s1 sg1 (fun nodef s' sg' => nodef = [] /\ s' = s1 /\ sg' = sg1)).
+  { destruct Hn as [Hn|Hn]; rewrite Hn; [rewrite (filter_all_in_bak (bbak cx) new Hall)|cbn [merge_nodef]]; cbn [ret wp]; auto. }
+  apply wp_bind. eapply wp_mono; [|exact Hnd]. intros nodef s' sg' (-> & -> & ->). cbn [ret bind fold_left wp].
   apply wp_bind.
   assert (C1 : cnt s sg) by exact (proj1 I). assert (C2 : cnt s1 sg1) by exact (proj1 I1).
   destruct (cnt_mono _ _ _ _ C1 C2 E1) as [M1 M2].
@@ -183,4 +185,13 @@ Proof.
   rewrite Vx. rewrite Forall_forall in Hp. destruct (Hp (nm, t) Hin) as (St & f' & Hf' & Sf' & _). cbn [fst snd] in *. rewrite B in Hf'. inversion Hf'; subst f'.
   rewrite (ve_ext ins ig _ _ _ _ C1 E1 St), (ve_ext ins ig _ _ _ _ C1 E1 Sf'), (ve_ext ins ig _ _ _ _ C1 E1 Scb). reflexivity.
 Qed.
+Theorem ctx_exit_value (cx : bctx (p:=p)) o cb (new : list (nat * slc)) s sg (Q : bdict * bdict -> gst -> store -> Prop) :
+  Inv s sg -> tvalid ins ig (borig cx) s sg -> bnodef cx = None -> bk cx = KIf -> bcond cx = PBool o cb -> sc s cb ->
+  NoDup (map fst new) -> Forall (pre (bbak cx) s sg) new ->
+  (forall r s' sg', Inv s' sg' -> ext sg sg' ->
+     (forall nm t, In (nm, t) new -> exists x f, dget r nm = Some (PLC x) /\ dget (bbak cx) nm = Some (PLC f) /\ sc s' x /\
+        ve sg' (sval x) = sel (ve sg (sval cb)) (ve sg (sval t)) (ve sg (sval f))) ->
+     Q (r, []) s' sg') ->
+  wp (ctx_exit c cx (map (fun nt => (fst nt, PLC (snd nt))) new)) s sg Q.
+Proof. intros I V Hn. apply ctx_exit_value_gen; auto. Qed.
 End MV.
